@@ -679,7 +679,8 @@ def rule_R9(ctx):
                 be = T.branch_edges(b, S, x)
                 if be is not None and be[0][0] == "variant":
                     src = T.strip(be[0][1])
-                    if src[0] == "call" and src[1].endswith("::next"):
+                    # .. or when `list.get(idx)` finds nothing (`while let (Some(o), Some(s)) = (observed.get(i), signature.get(j))`)
+                    if src[0] == "call" and (src[1].endswith("::next") or (src[1].endswith("::get") and ("[T]" in src[1] or "slice::" in src[1]))):
                         for y in T.walk(src):
                             if y[0] == "param" and y[2] in ("observed", "signature"):
                                 tested.add({"observed": "obs_idx", "signature": "sig_idx"}[y[2]])
